@@ -163,6 +163,12 @@ def run(ctx) -> None:
     ctx.rule("C13.private", "T8: analysis classes work on a private copy; a kept reference to the caller's model is only used inside a context", floor=2)
     ctx.rule("C13.helpers", "worker globals alias the initialiser's argument; documented modifiers are not analysis entry points", floor=2)
 
+    # analyses that edit the caller's model inside a context of their own (gap filling adds reactions, deletions knock
+    # out) rely on the context giving everything back: the replay oracle is a necessary condition here (shared with C03)
+    from . import replayform
+
+    ctx.rule("C03.replay", "bounded evaluation: reversible operations run inside a context on a stand-in model by the real methods; leaving the block gives everything back (shared with C03)", floor=1)
+    ctx.guard(replayform.check_replay, ctx, "C03.replay", "restore")
     entries = entry_points(ctx)
     if len(entries) < 60:
         raise AnalysisError(f"only {len(entries)} analysis entry points found")
